@@ -20,7 +20,7 @@ class Clock:
 class C05(Prop):
     id = 'C05'
     extracted = True      # statement-level kernels regenerated from the current source (harness/extract_m.py, Extracted/EquivC05.lean)
-    quick_cases = 1500
+    quick_cases = 4000
     thorough_cases = 25000
     quick_budget_s = 50
     rule = ('1..2 lineages (each in its own Context) over 1..3 partitions, 1..4 element-wise stages with persist()/cache() '
